@@ -1,4 +1,4 @@
-import Brax.Lemmas.C02Dyn
+import Brax.Lemmas.C02Inertia
 /-!
 # C02 — generalized-pipeline dynamics terms equal the reference engine
 
@@ -9,7 +9,7 @@ Spec: `Brax/Spec/C02.lean` (`Brax.MjD`, MuJoCo's sequential algorithms), tied to
 -/
 set_option linter.unusedSectionVars false
 namespace Brax.C02
-open Brax Kin Gd
+open Brax Kin Gd KinPos
 
 /-! ## the joint-space inertia matrix is symmetric -/
 
@@ -58,31 +58,31 @@ theorem massMatrix_posSemidef (ps : List Int) (cinr : List (Inertia K))
     (cdof : List (List (Motion K))) (arm : List (List K)) (X : Nat → Nat → K)
     (hps : ps.length = cdof.length) (hI : cinr.length = cdof.length) (hwf : PWF ps)
     (hsym : ∀ x ∈ cinr, SymmI x) (hpsd : ∀ k v, 0 ≤ ke (cinr.getD k dI) v)
-    (harm : ∀ l r, 0 ≤ armAt arm l r) :
+    (harm : ∀ l r, l < cdof.length → r < wAt cdof l → 0 ≤ armAt arm l r) :
     0 ≤ quadForm (massMatrix ps cinr cdof arm) (flatVec cdof X) := by
   rw [massMatrix_eq_keForm ps cinr cdof arm X hps hI hwf hsym]
   apply add_nonneg
   · exact rsum_nonneg _ _ fun k _ => hpsd k _
-  · exact rsum_nonneg _ _ fun l _ => rsum_nonneg _ _ fun r _ =>
-      mul_nonneg (harm l r) (mul_self_nonneg _)
+  · exact rsum_nonneg _ _ fun l hl => rsum_nonneg _ _ fun r hr =>
+      mul_nonneg (harm l r hl hr) (mul_self_nonneg _)
 
 /-- **positive definite when the armature is positive**: `xᵀ M x > 0` for every `x ≠ 0`. -/
 theorem massMatrix_posDef_of_armature (ps : List Int) (cinr : List (Inertia K))
     (cdof : List (List (Motion K))) (arm : List (List K)) (X : Nat → Nat → K)
     (hps : ps.length = cdof.length) (hI : cinr.length = cdof.length) (hwf : PWF ps)
     (hsym : ∀ x ∈ cinr, SymmI x) (hpsd : ∀ k v, 0 ≤ ke (cinr.getD k dI) v)
-    (harm : ∀ l r, 0 < armAt arm l r)
+    (harm : ∀ l r, l < cdof.length → r < wAt cdof l → 0 < armAt arm l r)
     (hX : ∃ l r, l < cdof.length ∧ r < wAt cdof l ∧ X l r ≠ 0) :
     0 < quadForm (massMatrix ps cinr cdof arm) (flatVec cdof X) := by
   rw [massMatrix_eq_keForm ps cinr cdof arm X hps hI hwf hsym]
   obtain ⟨l, r, hl, hr, hx⟩ := hX
   apply add_pos_of_nonneg_of_pos
   · exact rsum_nonneg _ _ fun k _ => hpsd k _
-  · have hterm : ∀ a s, 0 ≤ armAt arm a s * (X a s * X a s) := fun a s =>
-      mul_nonneg (le_of_lt (harm a s)) (mul_self_nonneg _)
-    apply rsum_pos _ _ (fun a _ => rsum_nonneg _ _ fun s _ => hterm a s) l hl
-    apply rsum_pos _ _ (fun s _ => hterm l s) r hr
-    exact mul_pos (harm l r) (mul_self_pos.mpr hx)
+  · have hterm : ∀ a s, a < cdof.length → s < wAt cdof a → 0 ≤ armAt arm a s * (X a s * X a s) :=
+      fun a s ha hs => mul_nonneg (le_of_lt (harm a s ha hs)) (mul_self_nonneg _)
+    apply rsum_pos _ _ (fun a ha => rsum_nonneg _ _ fun s hs => hterm a s ha hs) l hl
+    apply rsum_pos _ _ (fun s hs => hterm l s hl hs) r hr
+    exact mul_pos (harm l r hl hr) (mul_self_pos.mpr hx)
 
 end ordered
 
@@ -177,5 +177,253 @@ theorem integrate_free (dt : ℝ) (hdt : |dt| ≤ 1) (l : LinkIn ℝ) (h : l.typ
   unfold integrateQLink
   rw [h, hq, hqd]
   exact integrateQFree_unit dt hdt p0 p1 p2 r0 r1 r2 r3 v0 v1 v2 w0 w1 w2 hr
+
+/-! ## dof axes in the CoM frame (`cdof`) equal MuJoCo's -/
+
+/-- **`cdof` of a hinge/slide stack equals MuJoCo's** `[axis_w ; axis_w × (c − anchor_w)]` (hinge) /
+`[0 ; axis_w]` (slide), with `axis_w`, `anchor_w` taken in the body frame *as it is after the
+preceding joints of the stack*: for every stack (any number and mix of hinge/slide joints, any —
+also non-orthogonal — unit axes, shared anchor), every parent pose, every `q`, every reference
+point `c`.  `par'` is the parent's world pose (`none`: world). -/
+theorem cdof_eq_mj (p : Int) (par' : Option (Tf ℝ)) (hpar : ∀ t, par' = some t → t.rot.IsUnit)
+    (lk : LinkP ℝ) (l : LinkIn ℝ) (hok : LinkOK p lk l) (hnf : l.typ ≠ .free) (c : V3 ℝ) :
+    cdofLink l (Tf.doTf (Tf.doTf (par'.getD Tf.id) lk.tf) lk.joint) c
+      = MjD.cdofBody l (MjD.bodyKin par' lk l).1 (MjD.bodyKin par' lk l).2 c := by
+  obtain ⟨_, _, hd⟩ := hok.nonfree hnf
+  have hstart : Tf.doTf (par'.getD Tf.id) lk.tf = startPose par' lk := by
+    cases par' with
+    | none => exact Tf.id_doTf lk.tf
+    | some t => rfl
+  have hsU : (startPose par' lk).rot.IsUnit := by
+    cases par' with
+    | none => exact hok.bodyUnit
+    | some t => simp only [startPose, Tf.doTf]; exact Q4.IsUnit.mul (hpar t rfl) hok.bodyUnit
+  have hkin : (MjD.bodyKin par' lk l).2
+      = ((l.dofs.zip l.q).foldl (MjD.jointStep lk.joint.pos) (startPose par' lk, [])).2 := by
+    unfold MjD.bodyKin startPose
+    cases par' <;> cases ht : l.typ <;> first | exact absurd ht hnf | rfl
+  have hbody : ∀ pose joints, MjD.cdofBody l pose joints c = joints.map (MjD.jointCdof c) := by
+    intro pose joints
+    unfold MjD.cdofBody
+    cases ht : l.typ <;> first | exact absurd ht hnf | rfl
+  have hlocal : cdofLocal l = cdofStack (l.dofs.zip l.q) Tf.id := by
+    unfold cdofLocal
+    cases ht : l.typ <;> first | exact absurd ht hnf | rfl
+  have hfree : (l.typ == LinkType.free) = false := by
+    cases ht : l.typ <;> first | exact absurd ht hnf | rfl
+  rw [hbody, hkin, hstart]
+  have := stack_cdof_eq (startPose par' lk) hsU lk.joint.pos c (l.dofs.zip l.q) Tf.id Q4.isUnit_one hd []
+  rw [stackPose_id] at this
+  rw [this]
+  unfold cdofLink
+  rw [hlocal, hfree]
+  simp only [List.map_nil, List.nil_append, Tf.doTf, hok.jointRot, quatMul_one]
+
+/-- the dof rows `mjcf.load_model` writes for a free joint: three world translations, then three
+body-frame rotations -/
+def freeBasis : List (Motion ℝ) :=
+  [⟨V3.zero, ⟨1, 0, 0⟩⟩, ⟨V3.zero, ⟨0, 1, 0⟩⟩, ⟨V3.zero, ⟨0, 0, 1⟩⟩,
+   ⟨⟨1, 0, 0⟩, V3.zero⟩, ⟨⟨0, 1, 0⟩, V3.zero⟩, ⟨⟨0, 0, 1⟩, V3.zero⟩]
+
+/-- **`cdof` of a free link equals MuJoCo's**: translations `[0 ; e_k]` stay in the world frame
+(this is the clause the `fix:` for D2 must not touch), rotations are
+`[R e_k ; R e_k × (c − xpos)]`.  `pose` is the link's own world pose. -/
+theorem cdof_eq_mj_free (p : Int) (lk : LinkP ℝ) (l : LinkIn ℝ) (hok : LinkOK p lk l)
+    (hf : l.typ = .free) (hdofs : l.dofs.map (·.motion) = freeBasis) (pose : Tf ℝ) (c : V3 ℝ) :
+    cdofLink l (Tf.doTf (Tf.doTf pose lk.tf) lk.joint) c = MjD.cdofBody l pose [] c := by
+  obtain ⟨_, htf, hjp, _⟩ := hok.free hf
+  have hj : Tf.doTf (Tf.doTf pose lk.tf) lk.joint = pose := by
+    have : lk.joint = Tf.id := by
+      apply Tf.ext' hjp hok.jointRot
+    rw [htf, this, Tf.doTf_id, Tf.doTf_id]
+  rw [hj]
+  unfold cdofLink cdofLocal MjD.cdofBody
+  rw [hf]
+  have hb : (LinkType.free == LinkType.free) = true := rfl
+  simp only [hb, hdofs, freeBasis, List.map_cons, List.map_nil, List.cons_append,
+    List.nil_append, cdofWorld, if_true, Tf.doMotion, rotate_quatInv_one, rotate_zero,
+    MjD.dofComLin, MjD.dofComRot, cross_zero_right', sub_zero']
+  refine List.cons_eq_cons.mpr ⟨rfl, List.cons_eq_cons.mpr ⟨rfl, List.cons_eq_cons.mpr ⟨rfl, ?_⟩⟩⟩
+  refine List.cons_eq_cons.mpr ⟨?_, List.cons_eq_cons.mpr ⟨?_, List.cons_eq_cons.mpr ⟨?_, rfl⟩⟩⟩
+  all_goals
+    apply Motion.ext'
+    · rfl
+    · simp only [V3.cross, V3.sub_def, V3.zero]
+      apply V3.ext' <;> simp only <;> ring
+
+/-! ## recursive Newton–Euler -/
+
+/-- **the bias force vanishes at rest without gravity**: `dynamics.inverse` of the state
+`pipeline.init(sys, q, 0)` is identically 0 when `gravity = 0` — every system, every `q`.
+(A sign slip in the gravity trick or a velocity-independent spurious term would break this.) -/
+theorem rne_zero (s : Sys ℝ) (q : List ℝ) (hg : s.gravity = V3.zero) :
+    ∀ x ∈ biasFlat s (dynInit s q (List.replicate s.nv 0)) q (List.replicate s.nv 0), x = 0 := by
+  intro x hx
+  unfold biasFlat at hx
+  obtain ⟨row, hrow, hxr⟩ := List.mem_flatten.mp hx
+  rw [hg] at hrow
+  have hzero : ∀ l ∈ nested s q (List.replicate s.nv (0 : ℝ)), ∀ y ∈ l.qd, y = 0 := by
+    intro l hl y hy
+    exact List.eq_of_mem_replicate (linkSlices_qd_mem _ _ _ _ l hl y hy)
+  refine inverse_zero s.parents _ _ ?_ ?_ row hrow x hxr
+  · -- link velocities vanish
+    unfold dynInit transformCom
+    simp only
+    apply cd_zero
+    intro us hus m hm
+    obtain ⟨cs, _, l, hl, rfl⟩ := mem_zipWith _ _ _ _ hus
+    obtain ⟨c, _, y, hy, rfl⟩ := mem_zipWith _ _ _ _ hm
+    rw [hzero l hl y hy, mulr_zero]
+  · intro r hr y hy
+    obtain ⟨l, hl, rfl⟩ := List.mem_map.mp hr
+    exact hzero l hl y hy
+
+/-- **`dynamics.inverse` equals MuJoCo's `mj_rne`** on the same CoM-frame quantities (`cinr` ≙
+`cinert`, `cd` = `cvel`, `cdof`, `cdofd` = `cdof_dot`): the level-grouped forward scan with the
+gravity trick, the per-link force, the reverse accumulation and the projection on `cdof` are the
+sequential recursions of the reference — every forest, every state, any commutative ring. -/
+theorem rne_eq_mj {R : Type} [CommRing R] (ps : List Int) (g : V3 R) (st : ComState R)
+    (cinert : List (MjD.CInert R)) (qd : List (List R))
+    (hI : List.Forall₂ SameInertia st.cinr cinert) :
+    (inverse ps g st qd).flatten = MjD.rne ps g cinert st.cd st.cdof st.cdofd qd :=
+  inverse_eq_rne ps g st cinert qd hI
+
+/-! ## link velocities `cd` and dof-axis derivatives `cdofd` -/
+
+/-- **`cd` equals MuJoCo's `cvel`** whenever `cdof` does: the forward level scan
+`cd = cd[parent] + Σ cdof·q̇` is `mj_comVel`'s recursion (free links are roots with six dofs:
+`CdOK`, part of `Sys.WF`). -/
+theorem cd_eq (s : Sys ℝ) (x : List (Tf ℝ)) (q qd ctrl : List ℝ)
+    (hcdof : (transformCom s x q qd).cdof = (MjD.forwardData s q qd ctrl).cdof)
+    (hok : ∀ y ∈ s.parents.zip ((linkSlices s.types q qd s.dofs).zip (MjD.forwardData s q qd ctrl).cdof),
+      CdOK y.1 y.2.1 y.2.2) :
+    (transformCom s x q qd).cd = (MjD.forwardData s q qd ctrl).cvel := by
+  have h1 : (transformCom s x q qd).cd = scanFwd cdStep s.parents
+      (List.zipWith (fun cs (l : LinkIn ℝ) => List.zipWith mulr cs l.qd) (transformCom s x q qd).cdof
+        (linkSlices s.types q qd s.dofs)) := rfl
+  have h2 : (MjD.forwardData s q qd ctrl).cvel
+      = (scanFwd comVelStep s.parents
+          ((linkSlices s.types q qd s.dofs).zip (MjD.forwardData s q qd ctrl).cdof)).map Prod.snd := rfl
+  rw [h1, h2, hcdof]
+  exact cd_eq_spec _ _ _ hok
+
+/-- **`cdofd` of a hinge/slide link equals MuJoCo's `cdof_dot`**: the partial-sum construction
+(`cds[0] = cd[parent]`, `cds[i+1] = cds[i] + cdof_i q̇_i`, `cdofd_i = cds[i] × cdof_i`) is the
+running `cvel × cdof` of `mj_comVel`, given the parent's velocity. -/
+theorem cdofd_eq (typ : LinkType) (h : typ ≠ .free) (cvelP : Motion ℝ) (cs : List (Motion ℝ))
+    (qd : List ℝ) :
+    cdofdLink typ cvelP cs (List.zipWith mulr cs qd) = (MjD.comVelBody typ cvelP cs qd).1 := by
+  rw [comVelBody_axis typ h]
+
+/-- … and of a free root link: zero for the three translations, `(Σ translations) × cdof` for
+the rotations -/
+theorem cdofd_eq_free (c0 c1 c2 c3 c4 c5 : Motion ℝ) (v0 v1 v2 v3 v4 v5 : ℝ) :
+    cdofdLink .free Motion.zero [c0, c1, c2, c3, c4, c5]
+        (List.zipWith mulr [c0, c1, c2, c3, c4, c5] [v0, v1, v2, v3, v4, v5])
+      = (MjD.comVelBody .free Motion.zero [c0, c1, c2, c3, c4, c5] [v0, v1, v2, v3, v4, v5]).1 := by
+  rw [comVelBody_free]
+
+/- `cdofd_eq_sysStmt` (NOT proved; the gap is Layer-B bookkeeping only):
+   `(transformCom s x q qd).cdofd = (MjD.forwardData s q qd ctrl).cdofDot` whenever `cdof` agrees.
+   The model computes `cdofd` *after* the scan from `cd.take(parent_idx)`, the Spec inside the
+   scan from the running parent value; identifying the two needs the pointwise characterisation
+   `(scanFwd f ps as)[i] = f (… [parent i]) as[i]` threaded through `parentIdx`/`takeParent`.
+   Per link the statement is `cdofd_eq` / `cdofd_eq_free` above; the composition is tied by the
+   correspondence (`cdofd` vs `cdof_dot` on every case, both legs). -/
+
+/-! ## the CoM-frame inertia -/
+
+/-- **`cinr` equals MuJoCo's `cinert`** (`mju_inertCom` of the body inertia about the tree's
+centre of mass): same rotational part `R I Rᵀ + m(|o|²1 − o oᵀ)`, same `m·o`, same mass — for any
+inertial frame `xi`, reference point and body inertia, over any field. -/
+theorem cinr_eq {K : Type} [Field K] (xi : Tf K) (com : V3 K) (it : Inertia K) :
+    SameInertia (cinrLink xi com it) (MjD.inertCom xi.rot it.i it.mass (xi.pos - com)) :=
+  cinrLink_same xi com it
+
+/-- **`cinr` is a non-negative quadratic form** (this discharges `hpsd` of
+`massMatrix_posSemidef` / `massMatrix_posDef_of_armature`) when the body's inertia matrix is a
+non-negative form and its mass is non-negative. -/
+theorem cinr_psd (xi : Tf ℝ) (com : V3 ℝ) (it : Inertia ℝ)
+    (hI : ∀ w : V3 ℝ, 0 ≤ V3.dot w (M3.mulVec it.i w)) (hm : 0 ≤ it.mass) (v : Motion ℝ) :
+    0 ≤ ke (cinrLink xi com it) v :=
+  ke_cinrLink_nonneg xi com it hI hm v
+
+/-! ## non-vacuity -/
+
+/-- a two-link chain over ℤ (polynomial stages run at any commutative ring): hypotheses of
+`massMatrix_eq_keForm` hold … -/
+def exPs : List Int := [-1, 0]
+def exCinr : List (Inertia ℤ) :=
+  [⟨⟨⟨1, 2, -1⟩, ⟨1, 0, 0, 0⟩⟩, ⟨⟨4, 1, 0⟩, ⟨1, 5, -2⟩, ⟨0, -2, 6⟩⟩, 3⟩,
+   ⟨⟨⟨0, -1, 2⟩, ⟨1, 0, 0, 0⟩⟩, ⟨⟨2, 0, 1⟩, ⟨0, 3, 0⟩, ⟨1, 0, 4⟩⟩, 2⟩]
+def exCdof : List (List (Motion ℤ)) :=
+  [[⟨⟨0, 0, 1⟩, ⟨1, -1, 0⟩⟩, ⟨⟨0, 0, 0⟩, ⟨0, 1, 0⟩⟩], [⟨⟨1, 0, 0⟩, ⟨0, 2, 1⟩⟩]]
+def exArm : List (List ℤ) := [[1, 0], [2]]
+def exX : Nat → Nat → ℤ := fun l r => if l = 0 then (if r = 0 then 2 else -1) else 3
+
+example : PWF exPs := by
+  intro i
+  match i with
+  | 0 => decide
+  | 1 => decide
+  | k + 2 => simp [exPs]; omega
+
+example : ∀ x ∈ exCinr, SymmI x := by
+  intro x hx
+  simp only [exCinr, List.mem_cons, List.mem_nil_iff, or_false] at hx
+  rcases hx with rfl | rfl <;> simp [SymmI]
+
+/-- … and both sides of the identity evaluate to the same non-trivial number -/
+example : quadForm (massMatrix exPs exCinr exCdof exArm) (flatVec exCdof exX) = 101 := by decide
+example : rsum exCdof.length (fun k => ke (exCinr.getD k dI) (velAnc exPs exCdof exX k))
+    + nsum exCdof.length (wAt exCdof) (fun l r => armAt exArm l r * (exX l r * exX l r)) = 101 := by
+  decide
+
+/-! ### the D2 configuration: a slide along body-z on a body rotated about y
+
+Hypotheses of `cdof_eq_mj` hold for it, and the theorem yields the world-frame slide axis
+`(24/25, 0, −7/25)` (= `R_y(θ) e_z`, `cos θ/2 = 3/5`) — on the pinned tree (before the `fix:`
+commit) `cdof.vel` was `(0, 0, 1)`. -/
+
+noncomputable def d2Link : LinkP ℝ :=
+  ⟨⟨⟨0, 0, 1⟩, ⟨3/5, 0, 4/5, 0⟩⟩, ⟨V3.zero, Q4.one⟩, ⟨Tf.id, M3.one, 1⟩, 0, 0, 0, 0, 0⟩
+noncomputable def d2Dof : DofP ℝ := ⟨⟨⟨0, 0, 0⟩, ⟨0, 0, 1⟩⟩, 0, 0, 0, none, none, 0⟩
+noncomputable def d2In : LinkIn ℝ := ⟨.one, [3/10], [1], [d2Dof]⟩
+
+theorem d2_linkOK : LinkOK (-1) d2Link d2In := by
+  refine ⟨by norm_num [d2Link, Q4.IsUnit, Q4.normSq], rfl, fun h => by simp [d2In] at h,
+    fun _ => ⟨rfl, rfl, ?_⟩⟩
+  intro dq hdq
+  simp only [d2In, List.zip_cons_cons, List.zip_nil_right, List.mem_cons, List.mem_nil_iff,
+    or_false] at hdq
+  subst hdq
+  right
+  refine ⟨rfl, by norm_num [d2Dof, V3.dot], ?_⟩
+  have h := Real.cos_bound (x := (3/10 : ℝ) / 2) (by rw [abs_le]; constructor <;> norm_num)
+  rw [abs_le] at h
+  have h1 := h.1
+  have habs : |(3/10 : ℝ) / 2| = 3/20 := by rw [abs_of_pos] <;> norm_num
+  rw [habs] at h1
+  show (1e-8 : ℝ) < Real.cos ((3/10 : ℝ) / 2)
+  norm_num at h1 ⊢
+  linarith
+
+theorem d2_cdof (c : V3 ℝ) :
+    cdofLink d2In (Tf.doTf (Tf.doTf Tf.id d2Link.tf) d2Link.joint) c
+      = [⟨V3.zero, ⟨24/25, 0, -7/25⟩⟩] := by
+  have h := cdof_eq_mj (-1) none (by intro t ht; cases ht) d2Link d2In d2_linkOK
+    (by simp [d2In]) c
+  simp only [Option.getD_none] at h
+  rw [h]
+  have hz : Mj.v3IsZero (⟨0, 0, 1⟩ : V3 ℝ) = false := by
+    rw [Bool.eq_false_iff]; intro hc; rw [v3IsZero_iff] at hc; simp at hc
+  simp only [MjD.cdofBody, MjD.bodyKin, d2In, d2Dof, d2Link, List.zip_cons_cons, List.zip_nil_right,
+    List.foldl, MjD.jointStep, hz, Bool.false_eq_true, if_false, List.nil_append, List.map_cons,
+    List.map_nil, MjD.jointCdof, MjD.dofComLin]
+  congr 1
+  apply Motion.ext'
+  · rfl
+  · simp only [rotate, V3.dot, V3.cross, Q4.vec]
+    apply V3.ext' <;> simp only <;> norm_num
 
 end Brax.C02
